@@ -25,6 +25,7 @@ props! {
     "c10" c10,
     "c11" c11,
     "c13" c13,
+    "c14" c14,
     "c16" c16,
     "c17" c17,
     "c20" c20,
